@@ -135,3 +135,17 @@ Example C09_hyp_satisfiable :
   Forall (foreign_ok nat nat 0) (seq_sched nat nat (plan_reqs nat nat S 2 pts 0)) /\
   List.length (plan_reqs nat nat S 2 pts 0) = 3.
 Proof. exact sched_example. Qed.
+
+(* ---- inventory of mutable state (DESIGN.md 2.3).  The models above are functions of their arguments; they are
+   faithful only as long as the code keeps no state between calls beyond what they mention.  The package-level
+   variables and struct fields in the scope of C09 (and which of them are written outside construction, from which
+   entry points) are regenerated from the current source on every run (harness/stategen -> Generated/StateInv.v)
+   and contain no state beyond the expected, reviewed inventory of Sys/StateInvSpec.v, where every piece of state
+   that legitimately exists names the model component that accounts for it.  Breaks when a written package-level
+   variable, a struct field, or a write of a field outside its constructor is added in scope (coqc then prints the
+   differences); tolerates moved declarations, reordered fields, renamed locals, new helpers / constants / tables
+   nothing writes. *)
+From Sdfx Require Sys.StateInvSpec Sys.StateInvC09.
+Theorem C09_state_inventory : Sdfx.Sys.StateInvSpec.state_ok_C09 = true.
+Proof. exact Sdfx.Sys.StateInvC09.C09_state_inventory. Qed.
+Print Assumptions C09_state_inventory.
